@@ -134,10 +134,9 @@ def reviewTable : List (String × Review) := [
   ("x/assets/keeper/staker_asset.go:Keeper.UpdateStakerAssetState:must:k.cdc.MustUnmarshal(value, &assetState)", .codec),
   ("x/assets/types/keys.go:ParseID:index:keys[0]", .loopBound "strings.Split returns at least one element"),
   ("x/assets/types/keys.go:ParseID:index:keys[0]#2", .loopBound "strings.Split returns at least one element"),
-  ("x/avs/keeper/impl_epoch_hook.go:EpochsHooksWrapper.AfterEpochEnd:errfall:err != nil", .finding "F-11b"),
-  ("x/avs/keeper/impl_epoch_hook.go:EpochsHooksWrapper.AfterEpochEnd:errfall:err != nil || power.ActiveUSDValue.IsNegative()", .finding "F-11b"),
-  ("x/avs/keeper/impl_epoch_hook.go:EpochsHooksWrapper.AfterEpochEnd:errfall:err != nil || taskPowerTotal.IsZero() || operatorPowerTotal.IsZero()", .finding "F-11b"),
-  ("x/avs/keeper/impl_epoch_hook.go:EpochsHooksWrapper.AfterEpochEnd:errfall:err != nil#2", .finding "F-11b"),
+  ("x/avs/keeper/impl_epoch_hook.go:EpochsHooksWrapper.AfterEpochEnd:errfall:err != nil", .noResultUsed),
+  ("x/avs/keeper/impl_epoch_hook.go:EpochsHooksWrapper.AfterEpochEnd:errfall:err != nil || power.ActiveUSDValue.IsNegative()", .assumed "GetOperatorOptedUSDValue / GetAVSUSDValue cannot fail here: the result is only selected while its AVS (with a USD-value record, required by CreateAVSTask) still owns the task address; on failure the zero LegacyDec would be dereferenced"),
+  ("x/avs/keeper/impl_epoch_hook.go:EpochsHooksWrapper.AfterEpochEnd:errfall:err != nil || taskPowerTotal.IsZero() || operatorPowerTotal.IsZero()", .assumed "GetOperatorOptedUSDValue / GetAVSUSDValue cannot fail here: the result is only selected while its AVS (with a USD-value record, required by CreateAVSTask) still owns the task address; on failure the zero LegacyDec would be dereferenced"),
   ("x/avs/keeper/impl_epoch_hook.go:EpochsHooksWrapper.AfterEpochEnd:quo:taskPowerTotal.Quo(operatorPowerTotal)", .guard "C11_guard_quo_after_not_zero"),
   ("x/avs/keeper/keeper.go:Keeper.GetAVSInfo:must:k.cdc.MustUnmarshal(value, &ret)", .codec),
   ("x/avs/keeper/keeper.go:Keeper.IterateAVSInfo:must:k.cdc.MustUnmarshal(iterator.Value(), &avs)", .codec),
@@ -149,6 +148,7 @@ def reviewTable : List (String × Review) := [
   ("x/avs/keeper/task.go:Keeper.SetTaskInfo:must:k.cdc.MustMarshal(task)", .codec),
   ("x/avs/types/types.go:ChainIDWithoutRevision:index:splitStr[0]", .loopBound "strings.Split returns at least one element"),
   ("x/delegation/keeper/abci.go:Keeper.EndBlock:must:sdk.MustAccAddressFromBech32(record.OperatorAddr)", .inputChecked "operator addresses are bech32-validated (ValidateBasic / AccAddressFromBech32) before they are stored"),
+  ("x/delegation/keeper/abci.go:Keeper.EndBlock:newcoin:sdk.NewCoin(assetstypes.ExocoreAssetDenom, record.ActualCompletedAmount)", .guard "C11_guard_undelegation_actual_nonneg"),
   ("x/delegation/keeper/delegation_state.go:Keeper.DeleteStakerForOperator:index:stakers.Stakers[:i]", .loopBound "i is the index of the enclosing range loop over the same slice"),
   ("x/delegation/keeper/delegation_state.go:Keeper.DeleteStakerForOperator:index:stakers.Stakers[i+1:]", .loopBound "i is the index of the enclosing range loop over the same slice"),
   ("x/delegation/keeper/delegation_state.go:Keeper.DeleteStakerForOperator:must:k.cdc.MustMarshal(&stakers)", .codec),
@@ -206,11 +206,14 @@ def reviewTable : List (String × Review) := [
   ("x/evm/keeper/keeper.go:Keeper.WithChainID:panic:panic(\"chain id already set\")", .inputChecked "ctx.ChainID() is the genesis chain id, parsed by ParseChainID at InitChain; the same id every block"),
   ("x/evm/keeper/keeper.go:Keeper.WithChainID:panic:panic(err)", .inputChecked "ctx.ChainID() is the genesis chain id, parsed by ParseChainID at InitChain; the same id every block"),
   ("x/evm/keeper/params.go:Keeper.GetParams:must:k.cdc.MustUnmarshal(bz, &params)", .codec),
+  ("x/exomint/keeper/impl_epochs_hooks.go:EpochsHooksWrapper.AfterEpochEnd:newcoin:sdk.NewCoin(params.MintDenom, params.EpochReward)", .inputChecked "exomint Params validation rejects a negative EpochReward; SetParams keeps the previous value for nil / negative"),
   ("x/exomint/keeper/params.go:Keeper.GetParams:must:k.cdc.MustUnmarshal(bz, &params)", .codec),
   ("x/feedistribution/keeper/allocation.go:Keeper.AllocateTokens:quo:math.LegacyNewDec(val.Power).QuoTruncate(math.LegacyNewDec(totalPreviousPower))", .guard "C11_guard_allocateTokens"),
+  ("x/feedistribution/keeper/allocation.go:Keeper.AllocateTokensToStakers:coinsub:remaining.Sub(rewardToSingleStaker)", .guard "C17_no_halt (Props/C17.lean: AllocateTokens, with truncated validator / staker fractions, never takes more than is left)"),
   ("x/feedistribution/keeper/allocation.go:Keeper.AllocateTokensToStakers:index:globalStakerAddressList[i]", .loopBound "comparator of sort.Slice: i, j < len"),
   ("x/feedistribution/keeper/allocation.go:Keeper.AllocateTokensToStakers:index:globalStakerAddressList[j]", .loopBound "comparator of sort.Slice: i, j < len"),
   ("x/feedistribution/keeper/allocation.go:Keeper.AllocateTokensToStakers:quo:stakerPower.QuoTruncate(curTotalStakersPowers)", .guard "C11_guard_quo_after_is_positive"),
+  ("x/feedistribution/keeper/allocation.go:Keeper.AllocateTokensToValidator:coinsub:tokens.Sub(commission)", .guard "C17_no_halt (Props/C17.lean: AllocateTokens, with truncated validator / staker fractions, never takes more than is left)"),
   ("x/feedistribution/keeper/allocation.go:Keeper.AllocateTokensToValidator:errfall:err != nil", .assumed "OperatorInfo cannot fail: the validator handed in was resolved from a registered operator by AllocateTokens; on failure the zero Commission.Rate would be dereferenced"),
   ("x/feedistribution/keeper/keeper.go:Keeper.GetFeePool:must:k.cdc.MustMarshal(feePool)", .codec),
   ("x/feedistribution/keeper/keeper.go:Keeper.GetFeePool:must:k.cdc.MustUnmarshal(b, fp)", .codec),
@@ -310,16 +313,16 @@ set_option maxRecDepth 100000 in
 theorem C11_no_unreviewed_sites : (reviewTable.filter (fun p => p.2 == Review.unreviewed)).length = 0 := by rfl
 
 set_option maxRecDepth 100000 in
-/-- how the 203 sites are discharged: by theorem / open finding / everything that is not closed by a
+/-- how the 206 sites are discharged: by theorem / open finding / everything that is not closed by a
 theorem or a mechanical reason (findings, candidates, by-reading assumptions) -/
 theorem C11_review_counts :
-    reviewTable.length = 203 ∧
-    (reviewTable.filter (·.2.isGuard)).length = 8 ∧
-    (reviewTable.filter (·.2.isFinding)).length = 6 ∧
-    (reviewTable.filter (·.2.isOpen)).length = 17 := by
+    reviewTable.length = 206 ∧
+    (reviewTable.filter (·.2.isGuard)).length = 11 ∧
+    (reviewTable.filter (·.2.isFinding)).length = 2 ∧
+    (reviewTable.filter (·.2.isOpen)).length = 15 := by
   refine ⟨by rfl, by rfl, by rfl, by rfl⟩
 
-/-- the sites of the open findings (F-11a gov tally, F-11b AVS epoch hook) are on block paths -/
+/-- the sites of the open finding F-11a (gov tally) are on block paths -/
 theorem C11_finding_sites_are_on_block_paths : ∀ s ∈ knownFindingSites, s ∈ panicSitesInBlockPaths := by
   rw [C11_panic_sites_eq_reviewed]
   intro s h
@@ -341,6 +344,23 @@ theorem C11_tie_tokensFromShares_divisor (s t : ExoVerif.Dec) (a : Int)
   constructor
   · simp [ExoVerif.Gen.tokensFromShares, h1, h2]
   · simpa [ExoVerif.Dec.isZero] using h2
+
+/-- x/delegation EndBlock builds `sdk.NewCoin(hua, record.ActualCompletedAmount)` for a matured native-token
+undelegation; NewCoin panics on a negative amount. The only code that lowers ActualCompletedAmount is the
+regenerated SlashFromUndelegation, and it never takes it below zero (it caps against the amount that is
+left, not against the original Amount). -/
+theorem C11_guard_undelegation_actual_nonneg (r : ExoVerif.Ledger.URec) (p : ExoVerif.Dec) (h : 0 ≤ r.actual) :
+    0 ≤ (ExoVerif.Gen.slashFromUndelegation r p).1.actual := by
+  unfold ExoVerif.Gen.slashFromUndelegation
+  by_cases h0 : r.actual = 0
+  · simp [h0]
+  · simp only [beq_iff_eq, h0, if_false]
+    split
+    · simp
+    · rename_i hlt
+      simp only [decide_eq_true_eq, Int.not_le] at hlt
+      simp only []
+      omega
 
 /-- x/appchain (coordinator, subscriber) is not wired into the application -/
 theorem C11_appchain_not_wired : appWiredCustomModules.all (fun m => m != "x/appchain/coordinator" && m != "x/appchain/subscriber") = true := by
